@@ -83,6 +83,9 @@ def check_uci(ctx, f, L):
             continue
 
         def atom(e):
+            if e[0] == "bin" and e[1] == "Ne":
+                k_ = atom(("bin", "Eq", e[2], e[3]))
+                return ("neg", k_) if isinstance(k_, str) else None
             if e[0] == "bin" and e[1] == "Eq":
                 s = {e[2], e[3]}
                 if s == {KING, mfrom}:
@@ -105,7 +108,10 @@ def check_uci(ctx, f, L):
             k = atom(e)
             if k is None:
                 continue
-            if isinstance(k, tuple):
+            if isinstance(k, tuple) and k[0] == "neg":
+                if isinstance(v, int):
+                    t.setdefault(k[1], not bool(v))
+            elif isinstance(k, tuple):
                 t.setdefault(k[1], (v == 1) if isinstance(v, int) else (False if 1 in v[1] else True))
             elif isinstance(v, int):
                 t.setdefault(k, bool(v))
